@@ -88,6 +88,9 @@ class _randobj:
                 if ro_i.ctor_level == 0:
                     try:
                         self.build_field_model(None)
+                        # Fields are only used as random while a randomize
+                        # call that includes them is in progress
+                        self._int_field_info.model.set_used_rand(False, 0)
                     finally:
                         pop_srcinfo_mode()
             
